@@ -77,7 +77,7 @@ func (fx *FX) execCall(fr *frame, st *State, instr ssa.Instruction, cc *ssa.Call
 		c := e.CS.ByName[key]
 		sig := cc.Method.Type().(*types.Signature)
 		fx.safe(fr, st, "nil interface method call", Not(IfaceIsNil(recv.T)), pos)
-		all := append([]Val{recv}, args...)
+		all := append([]Val{{T: fx.ifaceRef(recv.T)}}, args...)
 		setRes(fx.applyContract(fr, st, c, key, nil, sig, all, pos, nil))
 		return st.reach.S != "false"
 	}
@@ -278,6 +278,11 @@ func (fx *FX) applyContract(fr *frame, st *State, c *Contract, name string, call
 			if m == "*" {
 				logComp("*")
 			}
+			for _, g := range fx.e.CS.Ghosts {
+				if g.Name == m {
+					logComp("G:" + m)
+				}
+			}
 		}
 	}
 	n := sig.Results().Len()
@@ -295,6 +300,9 @@ func (fx *FX) applyContract(fr *frame, st *State, c *Contract, name string, call
 		env.names = fx.contractNames(c, callee, sig, targs, results, fnv)
 		env.onlyNames = true
 		for _, cl := range c.Ensures {
+			fx.assume(st.reach, fx.evalBool(env, cl.Expr))
+		}
+		for _, cl := range c.TrustedEns {
 			fx.assume(st.reach, fx.evalBool(env, cl.Expr))
 		}
 	}
